@@ -179,13 +179,17 @@ CLAIMED = {
              "of the 11 suffixes, any value) followed by a non-extending character is cut off as exactly that token with "
              "exactly its characters as span at any line/column/offset; 129-bit literals give E140. Both real lexers are "
              "compared with the reference on all strings of length <= 3 over a 48-character alphabet and random token "
-             "sequences. Partial: string/char escapes, identifiers and the token-sequence (whole-line) composition are "
-             "covered by correspondence only.",
+             "sequences. Whole statement: `Lex.lex_source_of_tokens` - ANY source made of lines (ended by LF or CRLF) of tokens in "
+             "legal spellings (`LexemeP`: all integer spellings, identifiers, builtins, keywords/type names, punctuation, plain "
+             "string/char literals), with any indentation, any blanks between them - or none where the next character cannot "
+             "extend the token (`Item.after`) - and an optional `//` comment, lexes to exactly those tokens, on the right lines, "
+             "each spanning exactly its characters (`lex_line_of_tokens`, `lexLineAux_sequence` by induction over the line). "
+             "Partial: escapes inside string/char literals and non-ASCII text are covered by correspondence only.",
         note="Trusted: Lean kernel (propext, Quot.sound, Classical.choice at most), transcription of alpha/lexer.rs (checked exactly, "
              "incl. spans, by correspondence), harness token dump of both real lexers. Delta is compared on kinds/payloads/suffix "
              "types/exact spans of proper tokens and on code+line of error tokens; seven divergence classes are known findings "
              "(F9a-g) and are excluded from the delta comparison by syntactic class, each probed on every run.",
-        technique="Lean 4 proof (scanner lemmas, kernel-checked complete tables) + three-way lexer correspondence",
+        technique="Lean 4 proof (scanner lemmas, kernel-checked complete tables, whole-source composition theorem) + three-way lexer correspondence",
         design="§4 C14"),
     "C15": dict(
         text="The second-generation parser is written as data (an action language: take / branch on token / push nodes / call / "
